@@ -337,7 +337,7 @@ deriving Repr, DecidableEq
 /-- the objects reachable from the facade through its public attributes and lists -/
 inductive Obj
   | facade | heater | watercare | reminders | keypad | errorSensor | eco | ecoState
-  | pump (i : Nat) | pumpState (i : Nat)
+  | pump (i : Nat)
   | blower (i : Nat) | blowerState (i : Nat)
   | light (i : Nat) | lightState (i : Nat)
   | sensor (i : Nat) | binarySensor (i : Nat)
@@ -398,7 +398,9 @@ def switchMember (P : Profile) (id : Ident) (b : Block) (sw : Switch) (m : Mem) 
   match m with
   | .ui_key => some (.ok (.str sw.key))
   | .device_class => some (.ok (.str sw.props.cls))
-  | .state_sensor => some (.ok (.obj "GeckoSensor"))
+  | .state_sensor => match sw.demand with     -- GeckoSwitch.state_sensor(); GeckoPump has no such method
+    | none => some (.ok (.obj "GeckoSensor"))
+    | some _ => none
   | .is_on =>
     some (st.map (fun v =>
       if typeName sw.acc.kind = boolType then v.rv          -- returns the state itself
@@ -699,13 +701,16 @@ def evalObj (f : Facade) (d : Dyn) (o : Obj) (m : Mem) : Res :=
   | .facade => facadeMember f d m
   | .heater => heaterMember P id b f.heater m
   | .watercare => watercareMember id d.mode m
-  | .reminders => remindersMember id d.rems m
+  | .reminders =>
+    -- the threaded facade keeps its reminders manager private (`_reminders`; only the list is public)
+    match id.flavor with
+    | .async => remindersMember id d.rems m
+    | .sync => none
   | .keypad => keypadMember id m
   | .errorSensor => errorSensorMember id f.errorQuiet m
   | .eco => switchMember P id b f.eco m
   | .ecoState => sensorMember P id b (stateSensorOf f.eco) false m
   | .pump i => sw f.pumps i
-  | .pumpState i => ss f.pumps i
   | .blower i => sw f.blowers i
   | .blowerState i => ss f.blowers i
   | .light i => sw f.lights i
